@@ -246,42 +246,49 @@ def markWeek (wdaymask : List Int) (wkst : Int) : Nat → List Int → Int → P
       | .error e => .error e
       | .ok w => if w == wkst then .ok mask' else markWeek wdaymask wkst n mask' (i + 1)
 
+/-- one BYWEEKNO member of the loop at lines 1171-1186 -/
+def wnoStep (wdaymask : List Int) (wkst no1wkst numweeks back : Int) (mask : List Int) (n0 : Int) :
+    Py.R (List Int) :=
+  let n := if n0 < 0 then n0 + numweeks + 1 else n0
+  if ¬ (0 < n ∧ n ≤ numweeks) then .ok mask
+  else
+    let i := if n > 1 then no1wkst + (n - 1) * 7 - back else no1wkst
+    markWeek wdaymask wkst 7 mask i
+
+/-- `lnumweeks` (lines 1203-1216, after the fix of D-C01f): the number of weeks of last year, or −1 -/
+def lnumweeksOf (wkst : Int) (byweekno : List Int) (year yearlen yearweekday no1wkst : Int) : Int :=
+  if !(byweekno.contains (-1)) then
+    let lyearlen : Int := 365 + (if Cal.isLeap (year - 1) then 1 else 0)
+    -- (self.yearweekday - lyearlen) % 7: no date(year-1, 1, 1), which does not exist for year 1
+    let lyearweekday := Py.fmod (yearweekday - lyearlen) 7
+    let lno1wkst := Py.fmod (7 - lyearweekday + wkst) 7
+    if lno1wkst ≥ 4 then
+      52 + Py.fdiv (Py.fmod (lyearlen + Py.fmod (lyearweekday - wkst) 7) 7) 4
+    else
+      52 + Py.fdiv (Py.fmod (yearlen - no1wkst) 7) 4
+  else -1
+
 /-- `rebuild`, lines 1157-1222: the week-number mask -/
 def buildWnomask (wkst : Int) (byweekno : List Int) (year yearlen yearweekday : Int)
-    (wdaymask : List Int) : Py.R (List Int) := do
+    (wdaymask : List Int) : Py.R (List Int) :=
   let mask0 : List Int := List.replicate (yearlen + 7).toNat 0
   let firstwkst := Py.fmod (7 - yearweekday + wkst) 7
   let no1wkst := if firstwkst ≥ 4 then 0 else firstwkst
   let wyearlen := if firstwkst ≥ 4 then yearlen + Py.fmod (yearweekday - wkst) 7 else yearlen - firstwkst
   let numweeks := Py.fdiv wyearlen 7 + Py.fdiv (Py.fmod wyearlen 7) 4
   let back := if no1wkst ≠ firstwkst then 7 - firstwkst else 0
-  let mask1 ← byweekno.foldlM (fun mask n0 =>
-      let n := if n0 < 0 then n0 + numweeks + 1 else n0
-      if ¬ (0 < n ∧ n ≤ numweeks) then pure mask
-      else
-        let i := if n > 1 then no1wkst + (n - 1) * 7 - back else no1wkst
-        markWeek wdaymask wkst 7 mask i) mask0
-  let mask2 ←
-    if byweekno.contains 1 then
-      let i := no1wkst + numweeks * 7 - back
-      if i < yearlen then markWeek wdaymask wkst 7 mask1 i else pure mask1
-    else pure mask1
-  if no1wkst ≠ 0 then
-    let lnumweeks ←
-      if !(byweekno.contains (-1)) then
-        let lyearlen : Int := 365 + (if Cal.isLeap (year - 1) then 1 else 0)
-        -- (self.yearweekday - lyearlen) % 7: no date(year-1, 1, 1), which does not exist for year 1
-        let lyearweekday := Py.fmod (yearweekday - lyearlen) 7
-        let lno1wkst := Py.fmod (7 - lyearweekday + wkst) 7
-        if lno1wkst ≥ 4 then
-          pure (52 + Py.fdiv (Py.fmod (lyearlen + Py.fmod (lyearweekday - wkst) 7) 7) 4)
-        else
-          pure (52 + Py.fdiv (Py.fmod (yearlen - no1wkst) 7) 4)
-      else pure (-1)
-    if byweekno.contains lnumweeks then
-      (intRange 0 no1wkst).foldlM (fun mask i => setIdx mask i 1) mask2
-    else pure mask2
-  else pure mask2
+  match byweekno.foldlM (wnoStep wdaymask wkst no1wkst numweeks back) mask0 with
+  | .error e => .error e
+  | .ok mask1 =>
+    -- next year's week 1, when it starts inside this year
+    match (if byweekno.contains 1 ∧ no1wkst + numweeks * 7 - back < yearlen
+           then markWeek wdaymask wkst 7 mask1 (no1wkst + numweeks * 7 - back) else .ok mask1) with
+    | .error e => .error e
+    | .ok mask2 =>
+      -- the days before the first week start, which belong to last year's last week
+      if no1wkst ≠ 0 ∧ byweekno.contains (lnumweeksOf wkst byweekno year yearlen yearweekday no1wkst) then
+        (intRange 0 no1wkst).foldlM (fun mask i => setIdx mask i 1) mask2
+      else .ok mask2
 
 /-- one `(wday, n)` of the nth-weekday loop inside a `(first, last)` range (last already −1) -/
 def markNth (wdaymask : List Int) (first last : Int) (mask : List Int) (wn : Int × Int) : Py.R (List Int) :=
